@@ -28,7 +28,7 @@ ASSUMPTIONS = [
     "swapped lines, a digit turned into another digit, and changes to free-text fields (label, name, comment, substructure name, ids molli ignores) are undetectable by any reader and not generated",
     "truncation inside the final numeric token of the final line that leaves a shorter valid number is format-inherent (neither xyz nor mol2 has a terminator): known finding, counted and excluded",
 ]
-MOL2_FILES = ["dendrobine_mol2", "pentane_confs_mol2", "dummy_mol2", "dmf_mol2", "benzene_mol2", "fxyl_mol2", "isornitrate_mol2", "zincdb_fda_mol2", "hadd_test_mol2"]
+MOL2_FILES = ["dendrobine_mol2", "pentane_confs_mol2", "dummy_mol2", "dmf_mol2", "benzene_mol2", "fxyl_mol2", "isornitrate_mol2", "hadd_test_mol2", "nanotube_mol2"]     # (zincdb_fda.mol2 is an empty file in this checkout: no corpus)
 XYZ_FILES = ["dendrobine_xyz", "pentane_confs_xyz", "dummy_xyz"]
 
 
